@@ -242,7 +242,7 @@ DocViolT(T, s, cfg, op, doc) ==
                IN (IF d.optype # op.root THEN {"wrong-operation-type"} ELSE {})
                   \cup (IF ~(Len(d.sels) = 1 /\ d.sels[1].kind = "field" /\ d.sels[1].name = op.field) THEN {"not-exactly-the-field"} ELSE {}))
 DocViol(s, cfg, op, doc) == DocViolT(Types(s), s, cfg, op, doc)
-Definite(viol) == {r \in viol : r \notin {"U:argument-value", "U:fragment-spread", "U:variables"}}
+Definite(viol) == {r \in viol : r \notin {"U:argument-value", "U:fragment-spread", "U:variables", "U:wire-get"}}
 
 (* ------------------------------ operations, filters, counts ------------ *)
 Op(root, field) == [root |-> root, field |-> field]
@@ -344,6 +344,28 @@ Mutants(s, o) ==
                {[name |-> "conflicting-leaf-types", rule |-> "fields-conflict",
                  doc |-> OpDoc(o.root, <<[c EXCEPT !.sels = <<InlineSel("A", <<FieldSel("v", <<>>, <<>>)>>),
                                                               InlineSel("B", <<FieldSel("v", <<>>, <<>>)>>)>>]>>)]})
+
+(* ------------------------------ the request on the wire ---------------- *)
+(* A GraphQL test case is SENT as a GraphQL-over-HTTP request: POST, a JSON object whose member `query` is the document (a string);    *)
+(* the only other members the protocol knows are operationName, variables and extensions; the URL path is the one the schema was       *)
+(* loaded from / configured with.  w = [method, ctypeJson, isObject, keys << member names >>, queryIsString, verbatim (the member is    *)
+(* the case's document, character for character), pathOk, doc (projected AST of the `query` member)].                                  *)
+WireMembers == {"query", "operationName", "variables", "extensions"}
+WireViol(s, cfg, op, w) ==
+    (IF w.method = "POST" THEN {} ELSE IF w.method = "GET" /\ op.root = "query" THEN {"U:wire-get"} ELSE {"wire-method"})
+    \cup (IF w.ctypeJson THEN {} ELSE {"wire-content-type"})
+    \cup (IF w.isObject /\ w.queryIsString /\ (\E j \in 1..Len(w.keys) : w.keys[j] = "query") THEN {} ELSE {"wire-no-query-member"})
+    \cup (IF \A j \in 1..Len(w.keys) : w.keys[j] \in WireMembers THEN {} ELSE {"wire-unknown-member"})
+    \cup (IF w.pathOk THEN {} ELSE {"wire-path"})
+    \cup (IF w.verbatim THEN {} ELSE {"wire-document-differs"})
+    \cup (IF w.isObject /\ w.queryIsString THEN DocViol(s, cfg, op, w.doc) ELSE {})
+(* Mapping-style access offers the same operations: iterating the schema gives the root types that carry operations (query, then      *)
+(* mutation - never the subscription type), iterating a root's map gives exactly its fields.                                          *)
+MapsViol(s, roots, fields) ==
+    LET want == IF s.mut = "none" THEN <<"query">> ELSE <<"query", "mutation">>
+        got == {[root |-> fields[j].root, field |-> fields[j].field] : j \in 1..Len(fields)}
+    IN (IF roots = want THEN {} ELSE {"roots-offered"})
+       \cup (IF got = AllOps(s) /\ Cardinality(got) = Len(fields) THEN {} ELSE {"fields-offered"})
 
 (* ------------------------------ histories on ONE schema object --------- *)
 (* A loaded schema object is used repeatedly while its configuration changes.  step = [a, cfg, has, root, field, kind]:            *)
